@@ -2,7 +2,8 @@
    functions of coq/gen/Gen_rect.v, and the verified sample checker coq/model/RectClipCheck.v.
    Parsing/printing only.  Commands (rect = l t r b; <path> = n x y ...; <paths> = npaths then the paths;
    locations as their enum value 0..4):
-   CLIP rect <paths>          -> OK <paths> | ERR oob|fuel       model of RectClip(rect, paths), path by path
+   CLIP rect <paths>          -> OK <paths> | ERR oob|fuel       model of RectClip(rect, paths) (rect_clip_paths)
+   CLIP2 rect <paths> <paths> -> OK <paths> | <paths>            two Execute calls on one RectClip64 object
    CLIPX rect <path>          -> X shortcut [pip nstart locs.. H heap H heap H heap] F <paths>   (see harness/cx_rectclip.cpp)
                                  | ERR oob|fuel
    CLIPT rect <path>          -> OK npaths {n {x y tagkind tagidx}}   output with provenance tags
@@ -32,16 +33,16 @@ let show_heap h =
   let edges = List.map (fun l -> String.concat " " (string_of_int (List.length l) :: List.map show_onat l)) h.h_edges in
   String.concat " " (["H"; string_of_int (List.length nodes)] @ nodes @ [string_of_int (List.length res)] @ res @ edges)
 
-let clip_paths r ps =
-  if rect_is_empty r then Ok [] else
-  List.fold_left (fun acc p -> match acc with
-      | Err e -> Err e
-      | Ok o -> (match rect_clip_t r p with Err e -> Err e | Ok o' -> Ok (o @ List.map (List.map fst) o'))) (Ok []) ps
+let clip_paths r ps = rect_clip_paths r ps     (* the extracted model of a call on several paths *)
 
 let handle t =
   match next t with
   | "CLIP" -> let r = read_rect t in let ps = read_paths t in
       (match clip_paths r ps with Ok o -> "OK " ^ show_paths o | Err e -> show_err e)
+  | "CLIP2" -> let r = read_rect t in let ps = read_paths t in let qs = read_paths t in     (* Execute(ps); Execute(qs) on one object *)
+      (match clip_paths r ps, clip_paths r qs with
+       | Ok a, Ok b -> "OK " ^ show_paths a ^ " | " ^ show_paths b
+       | Err e, _ | _, Err e -> show_err e)
   | "CLIPT" -> let r = read_rect t in let p = read_path t in
       (match rect_clip_t r p with
        | Ok o -> "OK " ^ String.concat " " (string_of_int (List.length o) :: List.map show_tpath o)
